@@ -428,6 +428,14 @@ class ExecutionState:
             # Empty checkpoint (async for performance)
             execution_state.create_checkpoint(is_sync=False)
         """
+        # Conditionally create completion event based on is_sync parameter
+        completion_event: CompletionEvent | None = (
+            CompletionEvent() if is_sync else None
+        )
+
+        # Create wrapper object for queue (operation_update can be None for empty checkpoints)
+        queued_op = QueuedOperation(operation_update, completion_event)
+
         # if this is CONTEXT complete, mark incomplete descendants as orphans so the children can't complete after the parent
         if operation_update is not None:
             # Use single lock to coordinate completion and checkpoint validation
@@ -470,21 +478,12 @@ class ExecutionState:
                         operation_id=operation_update.operation_id,
                     )
 
-        # Check if background checkpointing has failed
-        if self._checkpointing_failed.is_set():
-            # This will raise the stored BackgroundThreadError
-            self._checkpointing_failed.wait()
-
-        # Conditionally create completion event based on is_sync parameter
-        completion_event: CompletionEvent | None = (
-            CompletionEvent() if is_sync else None
-        )
-
-        # Create wrapper object for queue
-        queued_op = QueuedOperation(operation_update, completion_event)
-
-        # Enqueue the wrapper object (operation_update can be None for empty checkpoints)
-        self._checkpoint_queue.put(queued_op)
+                # Enqueue while still holding the lock: the orphan check and the hand-over
+                # must be one atomic step, otherwise a descendant's update could be queued
+                # behind the completion record of a context that completed in between.
+                self._enqueue_checkpoint(queued_op)
+        else:
+            self._enqueue_checkpoint(queued_op)
 
         # Conditionally wait for completion based on is_sync parameter
         if is_sync:
@@ -498,6 +497,15 @@ class ExecutionState:
             completion_event.wait()
         else:
             logger.debug("Enqueued checkpoint operation for asynchronous processing")
+
+    def _enqueue_checkpoint(self, queued_op: QueuedOperation) -> None:
+        """Hand a queued operation over to the background checkpoint thread."""
+        # Check if background checkpointing has failed
+        if self._checkpointing_failed.is_set():
+            # This will raise the stored BackgroundThreadError
+            self._checkpointing_failed.wait()
+
+        self._checkpoint_queue.put(queued_op)
 
     def create_checkpoint_sync(
         self,
